@@ -25,7 +25,7 @@ RULE = ("cases: random recipes evaluated on interpretations that fix, sub-range 
 BUDGET = {"quick": (12, 260, 90), "thorough": (16, 2200, 1200)}
 PYTEST = True     # thorough tier also runs the repository's own tests under these monitors
 MANDATORY = ["judged:containment", "judged:tautology-sound", "judged:contradiction-sound", "judged:equation-bounds-exact",
-             "count:flag-true:tautology", "count:flag-true:contradiction", "count:constant-result-with-open-leaves"]
+             "count:flag-true:tautology", "count:flag-true:contradiction", "count:constant-result-with-open-leaves", "count:second-evaluation-on-one-object"]
 
 _n = 0
 
@@ -274,6 +274,21 @@ def _run_one(case, ctx):
             ctx.call("is_tautology", lambda o=obj: o.is_tautology)
             ctx.call("is_contradiction", lambda o=obj: o.is_contradiction)
             ctx.call("equation_bounds", lambda o=obj: o.equation_bounds)
+    # two evaluations in a row on ONE object: the second one (leaves of the first left open again) is judged against the model
+    # as it was built from the recipe -- an oracle reading the bounds back from the object would agree with a leaked narrowing
+    if rng.random() < 0.4:
+        same = recipes.fresh(case["recipe"])
+        d1 = {k_: v_ for k_, v_ in rand_partial(rng, graph, top).items() if graph[k_]["leaf"]}
+        ctx.call("evaluate_propositions", same.evaluate_propositions, dict(d1))
+        d2 = {k_: v_ for k_, v_ in rand_partial(rng, graph, top).items() if graph[k_]["leaf"] and rng.random() < 0.5}
+        with monitor.guard():
+            pass
+        r2 = ctx.call("evaluate_propositions", same.evaluate_propositions, dict(d2))
+        box = {nid: tuple(n["b"]) for nid, n in graph.items() if n["leaf"]}
+        for k_, v_ in d2.items():
+            box[k_] = norm_value(v_)
+        ctx.count("count:second-evaluation-on-one-object")
+        judge_containment(ctx, graph, top, box, {}, r2, "second evaluation on the same object")
     for _ in range(4 if ctx.tier == "quick" else 8):
         d = rand_partial(rng, graph, top)
         m = recipes.fresh(case["recipe"])
